@@ -35,7 +35,7 @@ NOT_APPLICABLE = {
     'C31': 'same as C30 (propagation over std containers and set merging).',
     'C32': "ConcurrentVector's sequential API is ~1300 lines of iterator/std-algorithm code (`std::move`, `move_backward` on custom iterators); only its index arithmetic is extractable and that is claimed under C33.",
     'C35': 'check not built yet (contracts designed in DESIGN.md section 5, proof not closed in this framework yet)',
-    'C36': 'check not built yet (contracts designed in DESIGN.md section 5, proof not closed in this framework yet)',
+    'C36': 'planned (DESIGN section 5) but not built: the rely the owner needs for its CAS-free pop is a history property (a thief may still act on a bottom value read before the owner\'s decrement, but only for the position that was top at that time); the encoding with a largest-bottom-since-top-changed ghost was designed (DESIGN 9.6) and not completed; under A-SC the seq_cst fences are invisible, so the only seeded change produced for it (a weakened fence) would need a memory-order discipline check, not the R/G proof.',
     'C37': 'copy constructor loops to `buffersSize_` | arena with 3 buffers | loop to `buffersPos_` | **run** (ASan): SEGV in `memcpy` copying an arena with 3 buffers',
     'C39': 'check not built yet (contracts designed in DESIGN.md section 5, proof not closed in this framework yet)',
     'C40': '`OpResult(OpResult&&)` / move-assign: `oth.ptr_ = nullptr` without destroying | any engaged source | destroy the moved-from object before disengaging | **run**: one lifetime-counted object still live after both OpResults are destroyed',
